@@ -134,12 +134,8 @@ def report(run, acc, mode):
                                     "driver_line": l, "how": how, "occurrences": len(ls),
                                     "model": "C07_signalled_progress_refuted (witness f14_schedule)"},
                           text + "; shortest schedule: %s" % sched_of(l))
-            # a spans-reset observation that the faithful model does NOT predict is something else
-            odd = [x for x in ls if field(x, "span") != "true"]
-            for l in odd[:3]:
-                run.violation("spans-reset-unpredicted:" + sched_of(l).replace(" ", "."),
-                              {"k": field(l, "k"), "m": field(l, "m"), "sched": sched_of(l), "driver_line": l, "how": how},
-                              text + " (not the keyed shape: the model of the code as it is does not predict it)")
+            # (by C07_signalled, with equal observations the model's caller is then necessarily c_span = true;
+            #  after a divergence the shape is still the keyed one -- the divergence itself is reported below)
             continue
         for l in ls[:3]:
             key = "%s%s:%s" % (shape, "-after-repair" if (shape == "spans-reset") else "", sched_of(l).replace(" ", "."))
